@@ -176,6 +176,25 @@ template<class Space_> struct CellEval
   double abshess(const double* coef, int a, int b) const { double s = 0; if constexpr (has_hess) for(int j(0); j < nl; ++j) s += std::fabs(coef[dm.get_index(j)] * sd.phi[j].hess[a][b]); return s; }
 };
 
+// the same evaluation with ONE requested space tag only (value, grad or hess): what an evaluator returns for a tag must not
+// depend on which other tags are requested (the configuration traits have to pull in everything the tag needs)
+template<class Space_, SpaceTags tag_> struct SubEval
+{
+  typedef typename Space_::TrafoType TrafoType; typedef typename Space_::ShapeType ShapeType;
+  static constexpr int dim = ShapeType::dimension;
+  typedef typename TrafoType::template Evaluator<ShapeType, double>::Type TrafoEval;
+  typedef typename Space_::template Evaluator<TrafoEval>::Type SpaceEval;
+  typedef typename SpaceEval::template ConfigTraits<tag_> SCT;
+  static constexpr TrafoTags ttags = SCT::trafo_config | TrafoTags::dom_point;
+  typename TrafoEval::template ConfigTraits<ttags>::EvalDataType td;
+  typename SCT::EvalDataType sd;
+  TrafoEval te; SpaceEval se; bool prepared = false;
+  explicit SubEval(const Space_& sp) : te(sp.get_trafo()), se(sp) {}
+  void prepare(Index c) { if(prepared) finish(); te.prepare(c); se.prepare(te); prepared = true; }
+  void finish() { if(prepared) { se.finish(); te.finish(); prepared = false; } }
+  void at(const double* xi) { typename TrafoEval::DomainPointType p; for(int a(0); a < dim; ++a) p[a] = xi[a]; te(td, p); se(sd, td); }
+};
+
 // dof assignment of all entities of dimension d_ ... 0 as JSON: [[ [idx..] per entity ] per dimension]
 template<class Space_, int d_> struct AssignDump
 {
@@ -339,6 +358,55 @@ template<class Shape_, class Space_> vj::Value run_mesh(const vj::Value& c, Mesh
     }
   }
 #endif
+  // ---- ConfigIndependent: value-only / grad-only / hess-only evaluations against the evaluation with all tags ----
+  Worst wcfg;
+  {
+    SubEval<Space_, SpaceTags::value> sv(space);
+    for(Index cc(0); cc < ncells; ++cc)
+    {
+      ce.prepare(cc); sv.prepare(cc);
+      for(std::size_t p(0); p < lattice.size(); p += 3)
+      {
+        ce.at(lattice[p].data()); sv.at(lattice[p].data());
+        for(int j(0); j < ce.nl; ++j) { const double a = double(ce.sd.phi[j].value), b = double(sv.sd.phi[j].value); wcfg.add(std::fabs(a - b), 1e-13 * (1.0 + std::fabs(a))); }
+      }
+      sv.finish();
+    }
+    ce.finish();
+    if constexpr (CE::has_grad)
+    {
+      SubEval<Space_, SpaceTags::grad> sg(space);
+      for(Index cc(0); cc < ncells; ++cc)
+      {
+        ce.prepare(cc); sg.prepare(cc);
+        for(std::size_t p(0); p < lattice.size(); p += 3)
+        {
+          ce.at(lattice[p].data()); sg.at(lattice[p].data());
+          for(int j(0); j < ce.nl; ++j) for(int a(0); a < dim; ++a)
+          { const double u = double(ce.sd.phi[j].grad[a]), v = double(sg.sd.phi[j].grad[a]); wcfg.add(std::fabs(u - v), 1e-13 * (1.0 + std::fabs(u))); }
+        }
+        sg.finish();
+      }
+      ce.finish();
+    }
+    if constexpr (CE::has_hess)
+    {
+      SubEval<Space_, SpaceTags::hess> sh(space);
+      for(Index cc(0); cc < ncells; ++cc)
+      {
+        ce.prepare(cc); sh.prepare(cc);
+        for(std::size_t p(0); p < lattice.size(); p += 3)
+        {
+          ce.at(lattice[p].data()); sh.at(lattice[p].data());
+          for(int j(0); j < ce.nl; ++j) for(int a(0); a < dim; ++a) for(int b(0); b < dim; ++b)
+          { const double u = double(ce.sd.phi[j].hess[a][b]), v = double(sh.sd.phi[j].hess[a][b]); wcfg.add(std::fabs(u - v), 1e-13 * (1.0 + std::fabs(u))); }
+        }
+        sh.finish();
+      }
+      ce.finish();
+    }
+  }
+  put_worst(f, "cfg", wcfg);
   std::fprintf(f, ",\"vecfield\":%s", vecfield ? "true" : "false");
   put_worst(f, "vrep", wvrep);
   std::fprintf(f, ",\"nodefunc\":%s,\"nmono\":%lld,\"hasgrad\":%s,\"hashess\":%s,\"exactcmp\":%s", Space_::have_node_func ? "true" : "false", nmono,
